@@ -88,7 +88,9 @@ func (w *world) addr(p peer) boson.Address {
 func (w *world) peer(a boson.Address) (peer, error) {
 	p, ok := w.back[a.ByteString()]
 	if !ok {
-		return p, fmt.Errorf("address %s is not one the driver supplied", a.String())
+		// an address the driver never supplied (e.g. a zero address delivered by a corrupted iteration) is an
+		// observation, not a driver failure: it is logged as the peer (99, 99), which no model state contains
+		return peer{99, 99}, nil
 	}
 	return p, nil
 }
